@@ -12,6 +12,8 @@ import EaselModel.Buffer.Stable
 import EaselModel.Buffer.Pinned
 import EaselModel.Buffer.Beyond
 import EaselModel.Buffer.HistoryX
+import EaselModel.Buffer.HistoryXF
+import EaselModel.Buffer.Retired
 import EaselModel.Buffer.MemRealLemmas  -- round4-mem
 import EaselModel.Buffer.MemRealStart  -- round 6
 import EaselModel.Buffer.OpenFileLemmas -- round4-open
@@ -250,6 +252,32 @@ example :
       = (setStableAnchor (openBuf .stream 2 [97, 98, 10, 99, 100, 10, 101, 102, 10]) 0).2.memgen ∧
     (runS { b := (setStableAnchor (openBuf .stream 2 [97, 98, 10, 99, 100, 10, 101, 102, 10]) 0).2 } [.get, .getLine, .getLine, .getToken [32]]).b.balloc = 16 := by decide
 
+/-! ### the blocks behind the window (round 6b): `bf->mem` and `bf->retired` as allocator state (Buffer/Retired.lean)
+
+`refillH b nmin h` is what `buffer_refill` called in state `b` does to the allocator (same conditions, same order as `refill`):
+free the retired blocks when no stable anchor holds, then either retire the block (under `bf->stable`) or realloc it. -/
+
+/-- **While `bf->stable` is set a refill frees nothing**: the freed list is unchanged and every block that was `bf->mem` or on
+    `bf->retired` before still is — so every pointer handed out since the stable anchor was set points into a live allocation
+    (the memory-safety half of the clause; `stable_ptr_valid` is the "same bytes at the same place" half). -/
+theorem retired_never_freed_under_stable (b : Buf) (nmin : Nat) (h : Heap) (hs : b.stab = true) :
+    (refillH b nmin h).freed = h.freed ∧
+    ∀ x, x ∈ h.live :: h.retired → x ∈ (refillH b nmin h).live :: (refillH b nmin h).retired :=
+  refillH_pinned b nmin h (by rw [stable_repair_in_model.2]; exact hs)
+
+/-- **Every block is freed exactly once**: after ANY sequence of `buffer_refill` calls, each in ANY state (a superset of what the
+    14 operations can issue along any history), followed by `esl_buffer_Close`: no block is freed twice and every block ever
+    allocated — in particular every block that went through `bf->retired` — has been freed. -/
+theorem retired_freed_exactly_once (cs : List (Buf × Nat)) :
+    (closeH (runH cs Heap.init)).Nodup ∧ ∀ x, x ∈ closeH (runH cs Heap.init) ↔ x < (runH cs Heap.init).next :=
+  close_frees_exactly_once cs
+
+-- the witness state (stable anchor, no room): the block is retired, not freed; the same state without the flag: realloc;
+-- after the anchor is gone the next refill that reads frees the retired block (and, the window being full, reallocs the live one)
+example : refillH stableWitness 1 Heap.init = ⟨1, [0], [], 2⟩ ∧
+    refillH { stableWitness with stab := false } 1 Heap.init = ⟨1, [], [0], 2⟩ ∧
+    refillH { (refill stableWitness 1).2 with stab := false, pos := 4 } 1 ⟨1, [0], [], 2⟩ = ⟨2, [], [0, 1], 3⟩ := by decide
+
 /-- regression theorems about the code BEFORE fix 188d0b6 (`refill0`; `refill = refill0` on every state without the flag,
     `refill_without_flag`): there `∀ b nmin, b.anchor = some 0 → (refill0 b nmin).2.memgen = b.memgen` was false
     (`stable_ptr_valid_fails_at`, `stable_ptr_valid_iff`); what did hold, and still holds with or without the flag: no move as
@@ -484,6 +512,30 @@ theorem history_x_pagesize_independent (src : Bytes) (ps₁ ps₂ P : Nat) (h₁
     obsRun { b := openBuf .stream ps₁ src } ops = obsRun { b := openBuf .stream ps₂ src } ops := by
   rw [history_spec_x .stream (Or.inl rfl) ps₁ src h₁ P hP₁ ⟨rfl, rfl⟩ ops hv,
       history_spec_x .stream (Or.inl rfl) ps₂ src h₂ P hP₂ ⟨rfl, rfl⟩ ops hv]
+
+/-- **Round 6b — the same on EVERY paged opener, FILE included**: for every input, page size and opener whose buffer reads in
+    pages (stream, pipe with at least a page of output, paged FILE), and every history in `ValidHistXA` — the contract, or a
+    `SetOffset` beyond the end of the input ahead of the cursor WHILE AN ANCHOR IS SET (then a FILE cannot `fseeko` and
+    fast-forwards like a stream) — the observations equal the extended deterministic specification `specRunX`. -/
+theorem history_spec_xa (mode : Mode) (ps : Nat) (src : Bytes) (hps : 0 < ps) (P : Nat) (hP : P ≤ ps)
+    (hopen : (openBuf mode ps src).hasfp = true) (ops : List Op) (hv : ValidHistXA P (AState.init src) ops) :
+    obsRun { b := openBuf mode ps src } ops = specRunX (AState.init src) ops :=
+  history_refines_xa P ops _ _ (open_R mode ps src hps P hP) hopen hv
+
+/-- … hence mode and page-size independence across the paged openers for that class of histories -/
+theorem history_xa_mode_independent (src : Bytes) (m₁ m₂ : Mode) (ps₁ ps₂ P : Nat) (h₁ : 0 < ps₁) (h₂ : 0 < ps₂) (hP₁ : P ≤ ps₁) (hP₂ : P ≤ ps₂)
+    (ho₁ : (openBuf m₁ ps₁ src).hasfp = true) (ho₂ : (openBuf m₂ ps₂ src).hasfp = true)
+    (ops : List Op) (hv : ValidHistXA P (AState.init src) ops) :
+    obsRun { b := openBuf m₁ ps₁ src } ops = obsRun { b := openBuf m₂ ps₂ src } ops := by
+  rw [history_spec_xa m₁ ps₁ src h₁ P hP₁ ho₁ ops hv, history_spec_xa m₂ ps₂ src h₂ P hP₂ ho₂ ops hv]
+
+-- non-vacuity: a FILE read in pages of 2, the record anchored, SetOffset far beyond the end, then on
+example : (openBuf .file 2 [97, 98, 10, 99]).hasfp = true ∧
+    ValidHistXA 1 (AState.init [97, 98, 10, 99]) [.setAnchor 0, .read 1, .setOffset 40, .getLine, .setOffset 0, .getLine, .raiseAnchor 0] := by
+  refine ⟨rfl, Or.inr ⟨Nat.le_refl _, Or.inl rfl⟩, Or.inr trivial, Or.inl (by decide), Or.inr trivial,
+    Or.inr ⟨Or.inl (by decide), Or.inr ⟨0, by decide, Nat.le_refl _⟩⟩, Or.inr trivial, Or.inr trivial, trivial⟩
+example : (obsRun { b := openBuf .file 2 [97, 98, 10, 99] } [.setAnchor 0, .read 1, .setOffset 40, .getLine, .setOffset 0, .getLine, .raiseAnchor 0]).map
+    (fun o => (o.st, o.bytes, o.off)) = [(.ok, [], 0), (.ok, [97], 1), (.einval, [], 4), (.eof, [], 4), (.ok, [], 0), (.ok, [97, 98], 3), (.ok, [], 3)] := by decide
 
 /-- the mode and the stream handle of a buffer never change after it is opened (any operation, any arguments, any state) -/
 theorem mode_fixed (s : Sess) (op : Op) : (s.step op).2.b.mode = s.b.mode ∧ (s.step op).2.b.hasfp = s.b.hasfp :=
